@@ -185,6 +185,32 @@ def zlist(xs):
     return "[" + "; ".join(zlit(x) for x in xs) + "]"
 
 
+def zpack(xs, signed=False):
+    """Long integer list as one big literal, unpacked in Coq by CaseLib.unpack (fast to elaborate)."""
+    xs = [int(x) for x in xs]
+    if not xs:
+        return "(@nil Z)"
+    bias = 0
+    if signed or min(xs) < 0:
+        bias = 1 << max(1, max(abs(x) for x in xs).bit_length())
+    w = max(1, max(x + bias for x in xs).bit_length())
+    big = 0
+    for i, x in enumerate(xs):
+        big |= (x + bias) << (w * i)
+    return "(unpack %d %s %d %s)" % (w, hex(bias), len(xs), hex(big))
+
+
+def npack(xs):
+    xs = [int(x) for x in xs]
+    if not xs:
+        return "(@nil nat)"
+    w = max(1, max(xs).bit_length())
+    big = 0
+    for i, x in enumerate(xs):
+        big |= x << (w * i)
+    return "(unpack_nat %d %d %s)" % (w, len(xs), hex(big))
+
+
 def blit(b):
     return "true" if b else "false"
 
@@ -216,7 +242,7 @@ def flit(x):
     return "(%s)%%float" % h if not h.startswith("-") else "(%s)%%float" % h
 
 
-def coq_eval(tag, imports, check_fn, cases, shard=400, timeout=600, preamble=""):
+def coq_eval(tag, imports, check_fn, cases, shard=400, timeout=600, preamble="", ctype=None):
     """Evaluate `check_fn case` (a Coq bool) for every case term inside Coq with vm_compute.
 
     Returns the list of indices where the model's verdict is false, plus the raw logs.  The case terms
@@ -224,16 +250,17 @@ def coq_eval(tag, imports, check_fn, cases, shard=400, timeout=600, preamble="")
     nothing but a list of failing indices has to be parsed."""
     d = os.path.join(COQ, "_cases")
     os.makedirs(d, exist_ok=True)
+    _t0 = time.time()
     for f in glob.glob(os.path.join(d, "%s_*" % tag)):
         os.remove(f)
     files = []
     for k in range(0, len(cases), shard):
         name = "%s_%03d" % (tag, k // shard)
-        body = "From Coq Require Import String ZArith QArith List Bool.\nImport ListNotations.\n" + imports + "\n"
+        body = "From Coq Require Import String ZArith QArith List Bool.\nImport ListNotations.\nFrom PV Require Import CaseLib.\n" + imports + "\n"
         body += "Open Scope Z_scope.\nOpen Scope string_scope.\n" + preamble + "\n"
         chunk = cases[k:k + shard]
         for j, c in enumerate(chunk):
-            body += "Definition c%d := %s.\n" % (j, c)
+            body += "Definition c%d%s := %s.\n" % (j, (" : " + ctype) if ctype else "", c)
         body += "Definition verdicts : list bool := [%s].\n" % "; ".join("%s c%d" % (check_fn, j) for j in range(len(chunk)))
         body += "Fixpoint bad (i : nat) (l : list bool) : list nat := match l with [] => [] | b :: r => " \
                 "if b then bad (S i) r else i :: bad (S i) r end.\n"
@@ -269,7 +296,11 @@ def coq_eval(tag, imports, check_fn, cases, shard=400, timeout=600, preamble="")
     for f in glob.glob(os.path.join(d, "%s_*" % tag)):
         if not f.endswith(".v"):
             os.remove(f)
+    COQ_EVAL_SECONDS[tag] = round(time.time() - _t0, 1)
     return failing, logs
+
+
+COQ_EVAL_SECONDS = {}
 
 
 # ------------------------------------------------------------------------------------------------
@@ -342,6 +373,7 @@ def finish(res, rule, assumptions, trusted_base, level="proof", extra=None):
         del cov["discharged"]
         cov["discharged_none"] = True
     cov.update(res.notes)
+    cov["seconds_coq_eval"] = dict(COQ_EVAL_SECONDS)
     if extra:
         cov.update(extra)
     ev = dict(property_id=res.prop, tier=res.tier, seed=res.seed, level=level, coverage=cov,
